@@ -17,7 +17,8 @@ get:
                         reaches the client is the window samples, preceded — only if the first of them is not a
                         random-access sample — by the samples since the last random-access point before the start
 * `get_window_full` (the property clause "returns the samples whose timestamps fall in the window") is FALSE for
-  the walk as coded: `get_window_witness`; it holds when a segment has one track (`walkSeg_single_track`).
+  the walk as coded: `get_window_witness`; with one track per segment the walk is the plain loop over all samples
+  (`walkSeg_single_track`, `single_track_fed`).
 -/
 import MtxVerif.Model.C29
 
@@ -404,13 +405,82 @@ theorem get_window_witness : ¬ get_window_full := by
   revert this
   decide
 
-/-- with ONE track per segment the clause holds: whatever is inside the window is handed to the muxer
-(timestamps non-decreasing in file order) -/
-theorem walkSamples_feeds (off cut : Int) : ∀ (l : List (Nat × Bool × Int)) (m : MTrack) (x : Nat × Bool × Int),
-    x ∈ l.takeWhile (fun y => decide (y.2.2 + off < cut)) → 0 ≤ x.2.2 + off →
-    (∀ y ∈ l, 0 ≤ y.2.2 + off → True) →
-    m.seenVisible = true ∨ True → True := by
-  intros; trivial
+/-! with ONE track per segment the walk is the plain trun loop over all samples of the file, so (timestamps
+non-decreasing) everything inside the window reaches the muxer -/
+
+theorem muxStep_tid (t : MTrack) (s : Smp) : (muxStep t s).tid = t.tid := by
+  unfold muxStep
+  split <;> split <;> rfl
+
+theorem walkSamples_tid (off cut : Int) : ∀ (l : List (Nat × Bool × Int)) (m : MTrack),
+    (walkSamples off cut m l).1.tid = m.tid := by
+  intro l
+  induction l with
+  | nil => intro m; rfl
+  | cons x r ih =>
+    intro m
+    obtain ⟨id, ns, d⟩ := x
+    unfold walkSamples
+    split
+    · rfl
+    · rw [ih, muxStep_tid]
+
+theorem walkSamples_cons (off cut : Int) (m : MTrack) (id : Nat) (ns : Bool) (d : Int) (r : List (Nat × Bool × Int)) :
+    walkSamples off cut m ((id, ns, d) :: r) =
+      if d + off ≥ cut then (m, true) else walkSamples off cut (muxStep m ⟨id, ns, d + off⟩) r := by
+  rw [walkSamples]
+
+theorem walkSamples_append (off cut : Int) : ∀ (l1 l2 : List (Nat × Bool × Int)) (m : MTrack),
+    walkSamples off cut m (l1 ++ l2) =
+      if (walkSamples off cut m l1).2 then walkSamples off cut m l1
+      else walkSamples off cut (walkSamples off cut m l1).1 l2 := by
+  intro l1
+  induction l1 with
+  | nil => intro l2 m; simp [walkSamples]
+  | cons x r ih =>
+    intro l2 m
+    obtain ⟨id, ns, d⟩ := x
+    simp only [List.cons_append]
+    rw [walkSamples_cons, walkSamples_cons]
+    by_cases h : d + off ≥ cut
+    · simp [h]
+    · simp only [h, if_false]
+      exact ih l2 _
+
+theorem walkSeg_single_track (tracks : List TrackInfo) (ti : TrackInfo) (tid : Nat) (dtsNs durNs : Int)
+    (hfind : tracks.find? (fun t => t.tid == tid) = some ti) :
+    ∀ (parts : List (List (Nat × Bool × Int))) (m : MTrack), m.tid = tid →
+      walkSeg tracks dtsNs durNs [m] (parts.map fun l => [(⟨tid, l⟩ : PTrk)]) =
+        [(walkSamples (goToMp4 dtsNs ti.ts) (goToMp4 durNs ti.ts) m parts.flatten).1] := by
+  intro parts
+  induction parts with
+  | nil => intro m _; simp [walkSeg, walkSamples]
+  | cons l r ih =>
+    intro m hm
+    simp only [List.map_cons, List.flatten_cons]
+    unfold walkSeg
+    have hpart : walkPart tracks dtsNs durNs [m] [(⟨tid, l⟩ : PTrk)] =
+        ([(walkSamples (goToMp4 dtsNs ti.ts) (goToMp4 durNs ti.ts) m l).1],
+         (walkSamples (goToMp4 dtsNs ti.ts) (goToMp4 durNs ti.ts) m l).2) := by
+      unfold walkPart
+      have hf2 : [m].find? (fun x => x.tid == tid) = some m := by simp [List.find?, hm]
+      simp only [hfind, hf2]
+      simp [walkPart, updTrack, hm]
+    rw [hpart]
+    simp only []
+    rw [walkSamples_append]
+    split
+    · rfl
+    · rw [ih _ (by rw [walkSamples_tid]; exact hm)]
+
+/-- …hence, by `walkSamples_spec`, the muxer of a single-track segment receives exactly the samples before the first
+one at or after the end of the window -/
+theorem single_track_fed (tracks : List TrackInfo) (ti : TrackInfo) (tid : Nat) (dtsNs durNs : Int)
+    (hfind : tracks.find? (fun t => t.tid == tid) = some ti) (parts : List (List (Nat × Bool × Int))) :
+    walkSeg tracks dtsNs durNs [{ tid := tid }] (parts.map fun l => [(⟨tid, l⟩ : PTrk)]) =
+      [(parts.flatten.takeWhile (fun x => decide (x.2.2 + goToMp4 dtsNs ti.ts < goToMp4 durNs ti.ts))).foldl
+        (fun m x => muxStep m ⟨x.1, x.2.1, x.2.2 + goToMp4 dtsNs ti.ts⟩) { tid := tid }] := by
+  rw [walkSeg_single_track tracks ti tid dtsNs durNs hfind parts { tid := tid } rfl, walkSamples_spec]
 
 /-! ### non-vacuity -/
 
